@@ -1,8 +1,10 @@
 //! Runtime monitors for synth-utils-rs. See /verif/DESIGN.md.
 pub mod adsr;
+pub mod glide;
 pub mod json;
 pub mod lfo;
 pub mod midi;
+pub mod quant;
 pub mod replay;
 pub mod report;
 pub mod rng;
@@ -14,7 +16,9 @@ pub fn run_property(ctx: &Ctx, prop: &str) -> Result<Report, String> {
     match prop {
         "C01" | "C02" | "C03" => Ok(adsr::run(ctx, prop)),
         "C04" | "C05" | "C06" | "C18" => Ok(midi::run(ctx, prop)),
+        "C07" | "C08" | "C09" | "C19" => Ok(quant::run(ctx, prop)),
         "C10" | "C11" | "C12" => Ok(lfo::run(ctx, prop)),
+        "C13" | "C14" => Ok(glide::run(ctx, prop)),
         _ => Err(format!("unknown property '{}'", prop)),
     }
 }
@@ -27,6 +31,8 @@ pub fn replay_property(prop: &str, text: &str, rep: &mut Report) -> Result<Optio
         "lfo" => lfo::replay(&t, prop, rep),
         "adsr" => adsr::replay(&t, prop, rep),
         "midi" => midi::replay(&t, prop, rep),
+        "glide" => glide::replay(&t, prop, rep),
+        "quantizer" => quant::replay(&t, prop, rep),
         m => Err(format!("unknown replay module '{}'", m)),
     }
 }
